@@ -944,8 +944,10 @@ static int decide_switch(SimThread* t, bool forced) {
   int cand[kMaxThreads];
   if (g.replay) {
     int64_t v;
-    if (replay_take(D_FAULT, &v))
+    while (replay_take(D_FAULT, &v)) { // (there may be two at one step: a communication-point stall and a periodic fault)
+      record(D_FAULT, v);
       apply_fault((int)(v & 0xff), v >> 8);
+    }
     if (t->stall_until > g.step || forced) {
       int n = collect_candidates(cand, t->id);
       if (n == 0) {
